@@ -2688,11 +2688,14 @@ def expand_oracle(ex, st, s, tenv):
         if len(s) == 1:
             cur = list(home)
         else:
-            rest = list(s[2:])
-            while rest and isc(rest[0], TP.SLASH):
-                rest = rest[1:]
+            # "joined onto HOME with its leading separators removed": the components of the rest without
+            # a leading RootDir are pushed onto HOME (same reading as for mash under C15)
             buf = TP.PathBufT(home)
-            TP.push_text(ex, st, buf, rest)
+            rel = TP.PathBufT([])
+            for t in TP.tokenize(ex, st, list(s[2:])):
+                if t[0].kind != ROOT:
+                    TP.push_text(ex, st, rel, t[0].text)
+            TP.push_text(ex, st, buf, rel.chars)
             # mash re-collects the components
             b2 = TP.PathBufT([])
             for t in TP.tokenize(ex, st, buf.chars):
